@@ -189,6 +189,11 @@ def mutate_text(r, text, kind):
     k = r.randrange(len(pos))
     i, j = pos[k]
     new = [list(l) for l in lines]
+    if kind == "insert":       # one more number after a token: positional readers shift, parameter lines have a surplus value
+        if new[i][j] in ("{", "}", "#") or new[i][j] in KEYS[:2] or (new[i] and new[i][0] == "#"):
+            return None        # (a longer header line can still be a header, of another grid: that is the re-gridding case)
+        new[i].insert(j + 1, "2")    # an integer: read whole both as an integer and as a real
+        return "\n".join(" ".join(l) for l in new) + "\n", "a number inserted after token %d of line %d (%s)" % (j, i, lines[i][j])
     if new[i][j] == "{":
         return None            # read_block's one-word form ("key value") is not modelled
     if kind == "drop":
@@ -281,8 +286,8 @@ def gen_io_case(r, k):
         c["g0"] = other_data(r, g, dy_data)
         c["add"] = 1 if (fmt == "multicol" and r.random() < 0.3) else 0
         c["buf"] = {"raw": 3, "rawg": 8}.get(fmt, 3)
-    kinds = {"multicol": ["truncate", "drop", "garble"], "raw": ["truncate", "drop", "garble"],
-             "rawg": ["truncate", "drop", "garble"], "file": ["truncate-rows"], "state": ["truncate", "drop", "garble"],
+    kinds = {"multicol": ["truncate", "drop", "garble", "insert"], "raw": ["truncate", "drop", "garble"],
+             "rawg": ["truncate", "drop", "garble"], "file": ["truncate-rows"], "state": ["truncate", "drop", "garble", "insert"],
              "dx": [], "remap": []}[fmt]
     c["mutations"] = [(kind, r.randint(0, 1 << 30)) for kind in kinds]
     return c
